@@ -3,6 +3,7 @@ import MythVerif.Proofs.PiDagIntern
 import MythVerif.Proofs.PiDagShrink
 import MythVerif.Proofs.PiDagStrings
 import MythVerif.Proofs.PiDagFlattenCert
+import MythVerif.Proofs.PiDagPruneLay
 import MythVerif.Properties.C18
 /-!
 # C19 — DAG files are well formed and survive a dump / read / convert round trip
@@ -22,10 +23,13 @@ the event order), the string table discipline (`C19_intern`), and that every `fl
 (= the dump of a recorded DAG: any well-nested execution, any contraction options) is accepted by
 the checker (`C19_flatten_wf`: all seven conjuncts — offsets, edgeEnds, grouped, counted, strings,
 degrees, certificate), hence is traversed completely by the replay (`C19_flatten_replay`).
-That every `shrink` output is accepted is NOT proved in general (see `C19_prune_wf_partial` and the
-full statement next to it): it is established per run by executing the verified checker on every
-converted DAG (check/props/c19.py), the model's arrays being compared field by field with the
-implementation's.  File I/O is not modelled.
+For the shrinking copy (`dag2any`): every converted dump — `shrink` applied, any number of times and
+under any conversion options, to the dump of a recorded DAG — is accepted by the checker
+(`C19_prune_wf_dump`, `C19_prune_wf_laid`) and hence traversed completely (`C19_prune_replay`).
+The statement with the bare hypothesis `wellFormed G` (`C19_prune_wf`) is FALSE and refuted here
+(`C19_prune_wf_refuted`): the checker does not compare `E` with what `dr_pi_dag_enum_edges` emits
+for `T`, and the copy rebuilds `E` from `T`.  File I/O is not modelled; the model's arrays are
+compared field by field with the implementation's per run (check/props/c19.py).
 -/
 namespace MythVerif.PiDag
 open MythVerif.DagRec
@@ -183,14 +187,66 @@ theorem C19_prune_totals (o : ShrinkOpts) (G : PiDag) (h : wellFormed G = true) 
     SameTotals (shrink o G).T[0]! G.T[0]! :=
   shrink_root o G (rootOk_of_wf G h).1 (rootOk_of_wf G h).2
 
+/-- a DAG whose node array is the layout `dr_pi_dag_enum_nodes` gives some tree of the recorder's shape
+    (`E`, `S` and the per-node `info`s are arbitrary) -/
+def Laid (G : PiDag) : Prop := ∃ d, LayN G.T d 0 1 ∧ G.T.size = 1 + descT d ∧ gTask d = true
+
+/-- every dump of a recorded DAG is laid out -/
+theorem C19_flatten_laid (v : Variant) (o : Opts) (sc nw : Nat) (t : Tree) (h : wnTask t = true) :
+    Laid (flatten sc nw (record v o sc t)) :=
+  ⟨_, (flatten_lay sc nw _).1, (flatten_lay sc nw _).2, record_gram v o sc t h⟩
+
+/-- **the shrinking copy of a laid-out DAG is well formed and laid out again** (so conversions can
+    be iterated), for all conversion-time contraction options; only the node array of the input
+    matters, its edges and strings are rebuilt -/
+theorem C19_prune_wf_laid (o : ShrinkOpts) (G : PiDag) (h : Laid G) :
+    wellFormed (shrink o G) = true ∧ Laid (shrink o G) := by
+  obtain ⟨d, h1, h2, h3⟩ := h
+  exact shrink_wellFormed_of_lay o G d h1 h2 h3
+
+/-- **every converted dump is well formed**: for every well-nested execution, every variant of the
+    recorder, all record-time contraction options `o` and all conversion-time options `so`, the
+    `dag2any` shrinking copy (`dr_pi_dag_copy_and_prune_nodes`, then edges / sort / pointers /
+    strings again) of the dumped DAG passes all seven checks -/
+theorem C19_prune_wf_dump (so : ShrinkOpts) (v : Variant) (o : Opts) (sc nw : Nat) (t : Tree) (h : wnTask t = true) :
+    wellFormed (shrink so (flatten sc nw (record v o sc t))) = true :=
+  (C19_prune_wf_laid so _ (C19_flatten_laid v o sc nw t h)).1
+
+/-- … also after a second conversion -/
+theorem C19_prune_wf_dump_twice (so so' : ShrinkOpts) (v : Variant) (o : Opts) (sc nw : Nat) (t : Tree)
+    (h : wnTask t = true) :
+    wellFormed (shrink so' (shrink so (flatten sc nw (record v o sc t)))) = true :=
+  (C19_prune_wf_laid so' _ (C19_prune_wf_laid so _ (C19_flatten_laid v o sc nw t h)).2).1
+
+/-- **replay of a converted dump**: whatever the dequeue order, the chronological traversal of the
+    converted DAG terminates with an empty queue, nothing running and nothing ready, having
+    started and ended every leaf exactly once and no inner node -/
+theorem C19_prune_replay (so : ShrinkOpts) (v : Variant) (o : Opts) (sc nw : Nat) (t : Tree) (h : wnTask t = true)
+    (pick : List Event → Nat) :
+    let G := shrink so (flatten sc nw (record v o sc t))
+    (replayWith pick G (4 * G.T.size + 4) (initReplay G)).queue = [] ∧
+    (replayWith pick G (4 * G.T.size + 4) (initReplay G)).nRunning = 0 ∧
+    (replayWith pick G (4 * G.T.size + 4) (initReplay G)).nReady = 0 ∧
+    ∀ i, i < G.T.size →
+      (replayWith pick G (4 * G.T.size + 4) (initReplay G)).started[i]! = (if isLeaf G.T[i]! then 1 else 0) ∧
+      (replayWith pick G (4 * G.T.size + 4) (initReplay G)).ended[i]! = (if isLeaf G.T[i]! then 1 else 0) := by
+  intro G
+  obtain ⟨h1, h2, h3, h4⟩ := C19_wf_replay G (C19_prune_wf_dump so v o sc nw t h) pick
+  exact ⟨h1, h3, h4, fun i hi => ⟨(h2 i hi).2.1, (h2 i hi).2.2.2⟩⟩
+
 /-
-The full statement about the shrinking copy (NOT proved in general; established per run by executing
-the verified checker on every converted DAG):
+The statement about the shrinking copy with the bare hypothesis `wellFormed G`
 
   theorem C19_prune_wf (o : ShrinkOpts) (G : PiDag) (h : wellFormed G = true) :
       wellFormed (shrink o G) = true
+
+is FALSE (`C19_prune_wf_refuted` below: `badG`, a task whose only child is a section that creates a
+task, with a hand-made edge array, passes the checker; its copy does not).  What holds instead is
+`C19_prune_wf_laid` (hypothesis: the node array is a layout of a tree of the recorder's shape, which
+every `flatten` and every `shrink` output satisfies) and its instance `C19_prune_wf_dump`.
 -/
-/-- the part of `C19_prune_wf` that is proved: the converted DAG has a root slot of the same kind -/
+/-- what does hold under the bare hypothesis `wellFormed G` (besides `C19_prune_totals`): the
+    converted DAG has a root slot of the same kind -/
 theorem C19_prune_wf_partial (o : ShrinkOpts) (G : PiDag) (h : wellFormed G = true) :
     (shrink o G).T[0]!.info.c.kind = G.T[0]!.info.c.kind :=
   (C19_prune_totals o G h).2.2.2.2.2.1
@@ -205,6 +261,27 @@ def mkN (k : NKind) (eb ee a b : Nat) : PNode :=
 def tiny : PiDag :=
   { T := #[mkN .task 0 0 1 3, mkN .other 0 1 0 0, mkN .endTask 1 1 0 0],
     E := #[⟨.otherCont, 1, 2⟩], S := [0], nw := 1 }
+
+/-- a root task whose only child is a section `[create → (collapsed) task, wait]`; the edge array
+    is not what `dr_pi_dag_enum_edges` would emit for these nodes (that would be the single edge
+    `2 → 3`, leaving slot 4 unreachable), yet the checker accepts it -/
+def badG : PiDag :=
+  { T := #[mkN .task 0 0 1 2, mkN .section 0 0 1 3, mkN .createTask 0 2 2 0, mkN .waitTasks 2 2 0 0, mkN .task 2 3 0 0],
+    E := #[⟨.createCont, 2, 3⟩, ⟨.create, 2, 4⟩, ⟨.end_, 4, 3⟩], S := [0], nw := 1 }
+
+/-- **`C19_prune_wf` with the bare hypothesis `wellFormed G` is false**: `badG` is accepted, its
+    (non-contracting) copy is rejected — the rebuilt edge array has 1 edge where
+    `dr_pi_dag_count_edges_uncollapsed` counts 3, and the child task is unreachable -/
+theorem C19_prune_wf_refuted :
+    ¬ ∀ (o : ShrinkOpts) (G : PiDag), wellFormed G = true → wellFormed (shrink o G) = true := by
+  intro h
+  have h1 : wellFormed badG = true := by decide +kernel
+  have h2 : wellFormed (shrink {} badG) = false := by decide +kernel
+  rw [h {} badG h1] at h2
+  cases h2
+
+example : (wfReport (shrink {} badG)).counted = false ∧ (wfReport (shrink {} badG)).certificate = false := by
+  decide +kernel
 
 /-- the hypothesis of `C19_wf_replay` is satisfiable … -/
 example : wellFormed tiny = true := by decide +kernel
@@ -237,6 +314,14 @@ example : wellFormed (flatten 0 2 (record .fixed { collapseMax := 3 } 0 exTree))
     create node (no child task, not a task itself) is dumped to something the checker rejects -/
 example : gTask (.ival { c := { kind := .createTask } }) = false ∧
     wellFormed (flatten 0 1 (.ival { c := { kind := .createTask } })) = false := by decide +kernel
+/-- `C19_prune_wf_dump` / `C19_prune_replay` / `C19_prune_wf_laid` applied: the contracted dump of
+    `exTree`, converted with `uncollapse_min = 7` (which really shrinks it: 9 → 4 nodes) -/
+example : wellFormed (shrink { uncollapseMin := 7 } (flatten 0 2 (record .fixed { collapseMax := 3 } 0 exTree))) = true :=
+  C19_prune_wf_dump { uncollapseMin := 7 } .fixed { collapseMax := 3 } 0 2 exTree (by decide)
+example : (shrink { uncollapseMin := 7 } (flatten 0 2 (record .fixed { collapseMax := 3 } 0 exTree))).T.size = 4 := by
+  decide +kernel
+example : Laid (flatten 0 2 (record .fixed { collapseMax := 3 } 0 exTree)) :=
+  C19_flatten_laid .fixed { collapseMax := 3 } 0 2 exTree (by decide)
 /-- `C19_grouped_degrees`: its hypothesis holds of `tiny` -/
 example : (wfReport tiny).grouped = true := by decide +kernel
 /-- interning `a b a c b` : three distinct names, indices 0 1 0 2 1 -/
